@@ -596,6 +596,7 @@ func c10RunDecoders(ctx *engine.Ctx, rc any, kind string, sealed []byte, mustRej
 func c10DecoderSub() *engine.Sub {
 	return &engine.Sub{
 		Name: "decoders-mutated-payloads",
+		Repeat: true,
 		Rule: "payload of a fully populated delegation / invocation with one field (quick) or two fields (thorough, pairs of a representative subset) mutated - dropped, nulled, retyped to each IPLD kind, integers at +/-2^53, +/-(2^53-1), int64 extremes and uint64 beyond int64 in time fields / argument values / policy literals / metadata, invalid and unusual commands, invalid DIDs, nonce lengths 0..13, malformed policies and proof lists, an unknown extra field - then signed correctly by the issuer and offered to generic and both typed decoders; must-reject mutations must be rejected (a panic is not a rejection), whatever is returned must be well formed and of the decoder's type; non-trivial = all",
 		Bound: func(t string) string { return "2 kinds x every field x ~20-40 mutations (d=1); thorough adds pairs over 6 representative mutations per field; Ed25519 and P-256 issuers" },
 		Gen: func(tier string, emit func(any) bool) {
@@ -678,6 +679,7 @@ func c10ShapeSub() *engine.Sub {
 		"dlg-payload-under-inv-tag", "inv-payload-under-dlg-tag", "unknown-ucan-tag", "tag-without-prefix", "valid-other-type"}
 	return &engine.Sub{
 		Name: "envelope-shapes-and-tags",
+		Repeat: true,
 		Rule: "well-signed envelopes whose signed part is not exactly one header plus one payload (1 or 3 entries, two ucan/ tags, no header, header of the wrong kind), outer lists of length 1 or 3, a payload under the other type's tag or under an unknown ucan/ tag, and a valid token of the other type offered to each typed decoder: all must be rejected; a delegation is never returned as an invocation or vice versa; non-trivial = all",
 		Bound: func(string) string { return fmt.Sprintf("%d shapes x 2 kinds x 6 decoders", len(shapes)) },
 		Gen: func(tier string, emit func(any) bool) {
@@ -953,6 +955,7 @@ func c10ValueSub() *engine.Sub {
 	vals := c10GoValues()
 	return &engine.Sub{
 		Name: "go-values-stored-exactly",
+		Repeat: true,
 		Rule: "every Go numeric type x {0, +/-1, +/-(2^53-1), +/-2^53, type min, type max}, float specials, named types, containers and pointers carrying boundary numbers, strings, bytes, CIDs, IPLD nodes and unsupported types, handed to literal.Any, args.Add, invocation.WithArgument and meta.Add: the call returns an error (never panics) or stores a node whose numbers are mathematically equal to the supplied ones; arguments additionally never hold an integer beyond +/-(2^53-1); non-trivial = numeric values",
 		Bound: func(string) string { return fmt.Sprintf("%d Go values x 4 entry points", len(vals)) },
 		Gen: func(tier string, emit func(any) bool) {
